@@ -89,7 +89,7 @@ def walk(
                 raise ValueError(f"signal {key} not found")
             new_conns[src_port_name] = target_sig
 
-        if isinstance(inst.of, h.PrimitiveCall):
+        if isinstance(inst.of, (h.PrimitiveCall, h.ExternalModuleCall)):
             yield FlattenedInstance(inst, new_parents, new_conns)
         else:
             yield from walk(inst.of, new_parents, new_conns)
